@@ -74,6 +74,28 @@ Theorem C20_all_keys_present : forall o v p sq tn cn fmt items k c t,
 Proof. exact all_keys_present. Qed.
 Print Assumptions C20_all_keys_present.
 
+(* ... and in the document a parser sees: the text nodes of the parsed output are exactly the non-empty text nodes the view
+   built (the view never puts two text nodes next to each other), so every included leaf and every shown key is a text node
+   of the parsed output. *)
+Theorem C20_parsed_texts : forall o v,
+  exists d, parse_html (render (tree_view o v)) = Some d /\
+            flat_map texts_of d = filter nonempty (texts_of (tree_view o v)).
+Proof. exact tree_view_parsed_texts. Qed.
+Print Assumptions C20_parsed_texts.
+
+Theorem C20_all_leaves_present_parsed : forall o v p lk tn cn raw rep fmt,
+  sub_at v p (PLeaf lk tn cn raw rep fmt) -> path_included o p = true -> leaf_text o lk raw rep <> [] ->
+  exists d, parse_html (render (tree_view o v)) = Some d /\ In (leaf_text o lk raw rep) (flat_map texts_of d).
+Proof. exact all_leaves_present_parsed. Qed.
+Print Assumptions C20_all_leaves_present_parsed.
+
+Theorem C20_all_keys_present_parsed : forall o v p sq tn cn fmt items k c t,
+  sub_at v p (PNode sq tn cn fmt items) -> assoc_key k items = Some c ->
+  path_included o (p ++ [k]) = true -> key_shown_text o sq k c = Some t -> t <> [] ->
+  exists d, parse_html (render (tree_view o v)) = Some d /\ In t (flat_map texts_of d).
+Proof. exact all_keys_present_parsed. Qed.
+Print Assumptions C20_all_keys_present_parsed.
+
 (* Unless summaries are switched off (enable_summary=False / enable_summary_for_str=False), every included key is shown. *)
 Theorem C20_default_summaries_show_every_key : forall o sq k c,
   o_enable_summary o = None -> o_summary_for_str o = true -> exists t, key_shown_text o sq k c = Some t.
